@@ -1431,7 +1431,7 @@ fn inline_eat_while_pass(text: String, is_method: bool, path: &str, ns: &[usize]
 }
 
 // ------------------------------------------------------------------------------------------
-// R16: `//@enumerate` — `for (I, P) in E.enumerate() { B }` (I a plain identifier) becomes
+// R17: `//@enumerate` — `for (I, P) in E.enumerate() { B }` (I a plain identifier) becomes
 //          { let mut I__n: usize = 0; for P in E { let I = I__n; I__n += 1; B } }
 //      Verus has no specification of `core::iter::Enumerate`. The rewritten text is std's definition of
 //      `Enumerate::next` (`let a = self.iter.next()?; let i = self.count; self.count += 1; Some((i, a))`) unfolded
@@ -1439,14 +1439,14 @@ fn inline_eat_while_pass(text: String, is_method: bool, path: &str, ns: &[usize]
 //      the body runs, so `continue` / `break` in B see the same counter values; `+= 1` carries the same overflow check
 //      (`Enumerate::next` inherits the caller crate's overflow checks) and becomes a proof obligation. The loop keeps
 //      its ordinal for `//@loop` / `//@forghost`. Only unlabelled loops with the pattern `(ident, P)`; counted per
-//      occurrence as R16_enumerate. Trusted: that std definition (A4).
+//      occurrence as R17_enumerate. Trusted: that std definition (A4).
 // ------------------------------------------------------------------------------------------
-struct R16Find<'t> {
+struct R17Find<'t> {
     found: Option<Vec<Edit>>,
     err: Option<String>,
     text: &'t str,
 }
-impl<'ast, 't> Visit<'ast> for R16Find<'t> {
+impl<'ast, 't> Visit<'ast> for R17Find<'t> {
     fn visit_expr_for_loop(&mut self, f: &'ast syn::ExprForLoop) {
         visit::visit_expr_for_loop(self, f);
         if self.found.is_some() || self.err.is_some() {
@@ -1456,7 +1456,7 @@ impl<'ast, 't> Visit<'ast> for R16Find<'t> {
         if mc.method != "enumerate" || !mc.args.is_empty() || mc.turbofish.is_some() {
             return;
         }
-        let bad = |m: &str| Some(format!("R16: `for .. in ..enumerate()` {m}"));
+        let bad = |m: &str| Some(format!("R17: `for .. in ..enumerate()` {m}"));
         if f.label.is_some() {
             self.err = bad("is labelled");
             return;
@@ -1491,16 +1491,16 @@ impl<'ast, 't> Visit<'ast> for R16Find<'t> {
     }
 }
 
-fn r16_pass(mut text: String, is_method: bool, cnt: &mut Counters) -> Result<String, String> {
+fn r17_pass(mut text: String, is_method: bool, cnt: &mut Counters) -> Result<String, String> {
     for _ in 0..100 {
         let edits;
         {
-            let mut f = R16Find { found: None, err: None, text: &text };
+            let mut f = R17Find { found: None, err: None, text: &text };
             if is_method {
-                let ast: syn::ImplItemFn = syn::parse_str(&text).map_err(|e| format!("reparse (R16): {e}"))?;
+                let ast: syn::ImplItemFn = syn::parse_str(&text).map_err(|e| format!("reparse (R17): {e}"))?;
                 f.visit_impl_item_fn(&ast);
             } else {
-                let ast: syn::ItemFn = syn::parse_str(&text).map_err(|e| format!("reparse (R16): {e}"))?;
+                let ast: syn::ItemFn = syn::parse_str(&text).map_err(|e| format!("reparse (R17): {e}"))?;
                 f.visit_item_fn(&ast);
             }
             if let Some(e) = f.err {
@@ -1511,12 +1511,12 @@ fn r16_pass(mut text: String, is_method: bool, cnt: &mut Counters) -> Result<Str
         match edits {
             None => return Ok(text),
             Some(e) => {
-                cnt.bump("R16_enumerate");
+                cnt.bump("R17_enumerate");
                 text = apply_edits(&text, e);
             }
         }
     }
-    Err("R16 did not converge".into())
+    Err("R17 did not converge".into())
 }
 
 fn eat_ws(text: &str, mut i: usize) -> usize {
@@ -1593,7 +1593,7 @@ pub struct FnSpec {
     pub guards: bool,
     pub refpats: bool,
     pub stubs: Vec<(usize, String, String)>, // R13: (n, let-anchor, stand-in call)
-    pub enumerate: bool,                     // R16
+    pub enumerate: bool,                     // R17
     pub inline_eat_while: Vec<usize>,        // R15: ordinals of `X.eat_while(<closure literal>)` calls to inline
 }
 
@@ -1753,6 +1753,25 @@ impl<'a> Ctx<'a> {
         Ok(Emitted { text: out, canary: None, src_line: line })
     }
 
+    /// names of the top-level `const` items of a source file that are active in this configuration
+    pub fn top_consts(&mut self, file: &str) -> Result<Vec<String>, String> {
+        if file.starts_with('@') {
+            return Ok(vec![]);
+        }
+        self.load(file)?;
+        let mut out = vec![];
+        let items: Vec<(String, Vec<Attribute>)> = self.sources[file].ast.items.iter().filter_map(|it| match it {
+            syn::Item::Const(c) => Some((c.ident.to_string(), c.attrs.clone())),
+            _ => None,
+        }).collect();
+        for (n, attrs) in items {
+            if self.attrs_on(&attrs)? {
+                out.push(n);
+            }
+        }
+        Ok(out)
+    }
+
     pub fn inherent_methods(&mut self, file: &str, ty: &str) -> Result<Vec<String>, String> {
         self.load(file)?;
         let mut out = vec![];
@@ -1895,7 +1914,7 @@ impl<'a> Ctx<'a> {
             let def = self.eat_while_def()?;
             inline_eat_while_pass(text1, is_method, &fs.path, &fs.inline_eat_while, &def, &mut self.cnt)?
         };
-        let text1 = if fs.enumerate && !fs.external { r16_pass(text1, is_method, &mut self.cnt)? } else { text1 };
+        let text1 = if fs.enumerate && !fs.external { r17_pass(text1, is_method, &mut self.cnt)? } else { text1 };
         // pass 2 (R4)
         let text2 = if fs.external { text1 } else { r4_pass(text1, is_method, &fs.r4result, &mut self.cnt)? };
         let text2 = if fs.guards && !fs.external { r12_pass(text2, is_method, &mut self.cnt)? } else { text2 };
@@ -2109,6 +2128,7 @@ struct Gen<'a> {
     proved_elsewhere: Vec<String>,
     emitted_fns: HashSet<String>,
     included: HashSet<String>,
+    deferred_consts: Vec<(String, String)>,
 }
 
 fn kv<'x>(parts: &[&'x str], key: &str) -> Option<&'x str> {
@@ -2384,6 +2404,35 @@ impl<'a> Gen<'a> {
                         }
                         let e = self.ctx.extract_fn(&fs)?;
                         self.emitted_fns.insert(fs.path.clone());
+                        // R16: a top-level `const` of the same file that the body names and the unit does not have yet is
+                        // copied too (counted): a new constant in a function under contract is code, not a lost anchor
+                        if !fs.external {
+                            for c in self.ctx.top_consts(&fs.file)? {
+                                let named = e.text.match_indices(c.as_str()).any(|(k, _)| {
+                                    let b = e.text.as_bytes();
+                                    let before = k == 0 || !(b[k - 1].is_ascii_alphanumeric() || b[k - 1] == b'_');
+                                    let after = k + c.len() >= b.len() || !(b[k + c.len()].is_ascii_alphanumeric() || b[k + c.len()] == b'_');
+                                    before && after
+                                });
+                                let have = self.out.contains(&format!("const {c}:")) || self.out.contains(&format!("const {c} :"));
+                                if named && !have {
+                                    if self.deferred_consts.iter().any(|(n, _)| n == &c) {
+                                        continue;
+                                    }
+                                    if let Ok(it) = self.ctx.extract_item(&fs.file, &c, None) {
+                                        self.ctx.cnt.bump("R16_auto_const");
+                                        if fs.path.starts_with("::") {
+                                            // a free function: module level, the constant can go right before it
+                                            self.emit(&it.text);
+                                        } else {
+                                            // a method: we are inside an `impl` block; the constant goes to module level at
+                                            // the end of the verus! block
+                                            self.deferred_consts.push((c.clone(), it.text.clone()));
+                                        }
+                                    }
+                                }
+                            }
+                        }
                         let disp = fs.rename.clone().map(|n| format!("{} (as {n})", fs.path)).unwrap_or(fs.path.clone());
                         let start = self.cur_line();
                         self.emit(&format!("    // <<< {}:{} {}", fs.file, e.src_line, fs.path));
@@ -2450,6 +2499,12 @@ impl<'a> Gen<'a> {
                     other => return Err(format!("{path}:{}: unknown directive `{other}`", i + 1)),
                 }
             } else if emitting {
+                if depth == 0 && line.trim_start().starts_with("} // verus!") {
+                    let d: Vec<(String, String)> = std::mem::take(&mut self.deferred_consts);
+                    for (_, text) in d {
+                        self.emit(&text);
+                    }
+                }
                 self.emit(line);
             }
             i += 1;
@@ -2462,7 +2517,7 @@ pub fn gen(opts: &HashMap<String, String>) -> Result<(), String> {
     let get = |k: &str| opts.get(k).cloned().ok_or(format!("missing --{k}"));
     let cfg = Cfg { on: get("cfg")?.split(',').filter(|s| !s.is_empty()).map(String::from).collect() };
     let ctx = Ctx { cfg: &cfg, srcdir: get("src")?, sources: HashMap::new(), cnt: Counters { r: HashMap::new() }, dropped: vec![] };
-    let mut g = Gen { ctx, contracts: get("contracts")?, out: String::new(), map: vec![], trusted: vec![], assumed_depth: 0, proved_elsewhere: vec![], emitted_fns: HashSet::new(), included: HashSet::new() };
+    let mut g = Gen { ctx, contracts: get("contracts")?, out: String::new(), map: vec![], trusted: vec![], assumed_depth: 0, proved_elsewhere: vec![], emitted_fns: HashSet::new(), included: HashSet::new(), deferred_consts: vec![] };
     let tpl = get("template")?;
     set_expanded_path(opts.get("expanded").cloned());
     g.process(&tpl, 0)?;
